@@ -1,16 +1,100 @@
-//! Suite C05 (stub — replaced when the property's harness is built).
+//! Suite C05: a downlink is accepted iff authentic and fresh (counter arithmetic exhaustively + frame orderings).
 #![allow(dead_code, unused_imports)]
+use crate::mac::*;
+use crate::macgen::*;
+use crate::macsuites::*;
 use crate::util::*;
 
-pub fn eval(_op: &str) -> String {
-    "bad-op".into()
+pub fn eval(op: &str) -> String {
+    let w: Vec<&str> = op.split_whitespace().collect();
+    if w.len() == 4 && w[1] == "next" {
+        let last: Option<u32> = w[2].parse().ok();
+        let wire: u16 = match w[3].parse() {
+            Ok(v) => v,
+            Err(_) => return "bad-op".into(),
+        };
+        return match lorawan_device::mac::verif::next_fcnt_down(last, wire) {
+            Some(n) => n.to_string(),
+            None => "none".into(),
+        };
+    }
+    if w.len() == 3 && w[1] == "next_digest" {
+        let last: Option<u32> = w[2].parse().ok();
+        let mut h = Fnv::new();
+        for wire in 0..=65535u16 {
+            h.opt(lorawan_device::mac::verif::next_fcnt_down(last, wire).map(|v| v as i64));
+        }
+        return format!("{:016x}", h.0);
+    }
+    let outs = run_history(op);
+    format!("{} ## oracle={}", outs.join(" ; "), oracle_c05(op, &outs))
 }
 
 pub fn expand(_op: &str) -> Vec<String> {
+    let w: Vec<&str> = _op.split_whitespace().collect();
+    if w.len() == 3 && w[1] == "next_digest" {
+        return (0..=65535u32).map(|x| format!("C05 next {} {}", w[2], x)).collect();
+    }
     vec![]
 }
 
-pub fn run(_tier: &str, _seed: u64, dir: &str) {
-    let sink = Sink::new(dir);
-    sink.finish(dir, "stub", false, serde_json::json!({}));
+pub fn run(tier: &str, seed: u64, dir: &str) {
+    let mut rng = Rng::new(seed);
+    let mut sink = Sink::new(dir);
+    let thorough = tier == "thorough";
+    // 1. the counter arithmetic, exhaustively by digest: all 2^16 wire values for `last` = none and
+    //    for `last` around every class of boundary
+    let mut lasts: Vec<Option<u32>> = vec![None];
+    let centres: [u64; 8] = [0, 0x8000, 0xffff, 0x1_0000, 0x7fff_0000, 0xfffe_ffff, 0xffff_0000, 0xffff_ffff];
+    for c in centres {
+        let span: i64 = if thorough { 70_000 } else { 24 };
+        let step: i64 = if thorough { 1 } else { 1 };
+        let mut d = -span;
+        while d <= span {
+            let v = c as i64 + d;
+            if (0..=0xffff_ffffi64).contains(&v) {
+                lasts.push(Some(v as u32));
+            }
+            d += step;
+        }
+        if !thorough {
+            for d in [-70_000i64, -16_385, -16_384, -16_383, 16_383, 16_384, 16_385, 65_535, 65_536, 70_000] {
+                let v = c as i64 + d;
+                if (0..=0xffff_ffffi64).contains(&v) {
+                    lasts.push(Some(v as u32));
+                }
+            }
+        }
+    }
+    for _ in 0..(if thorough { 2000 } else { 60 }) {
+        lasts.push(Some(rng.next() as u32));
+    }
+    lasts.sort();
+    lasts.dedup();
+    for l in &lasts {
+        let op = format!("C05 next_digest {}", l.map(|x| x.to_string()).unwrap_or("-".into()));
+        sink.case_w(&op, &eval(&op), "next-fcnt-digest", true, 65536);
+    }
+    // 2. orderings of fresh / replayed / reordered / far-future / forged frames through the MAC
+    let per_region = if thorough { 3000 } else { 160 };
+    for region in REGIONS {
+        for i in 0..per_region {
+            let mut o = Opts::default();
+            o.steps = 6 + rng.below(10) as usize;
+            o.otaa_pct = 10;
+            o.toggles = false;
+            o.cmds = i % 3 == 0;
+            o.counters = match i % 6 {
+                0 => Some((5, Some(0xfffd))),
+                1 => Some((5, Some(0xffff))),
+                2 => Some((9, Some(0x1_fff0))),
+                3 => Some((9, Some(0xffff_fff0))),
+                4 => Some((0, None)),
+                _ => None,
+            };
+            let op = gen_history("C05", &mut rng, region, &o);
+            sink.case(&op, &eval(&op), "frame-orderings", true);
+        }
+    }
+    sink.finish(dir, "next_fcnt_down: one digest per `last` value over all 65536 wire values (last = none, every value within +-70000 of 0, 0x8000, 0xFFFF, 0x10000, 0x7FFF0000, 0xFFFEFFFF, 0xFFFF0000, 2^32-1 in thorough; +-24 plus the gap boundaries in quick; plus random); MAC histories with sessions whose downlink counter sits at 16-/32-bit boundaries, mixing fresh, replayed, reordered, far-future, bit-flipped, wrong-key and oversized frames in RX1/RX2/RXC. Non-trivial = every case.", false, serde_json::json!({}));
 }
